@@ -1,0 +1,83 @@
+//go:build verif
+
+// Contracts for package object, checked by /verif/govc (comment-only; compiled only under tag verif).
+package object
+
+//@ define constChar(i, v) = (i != 0 && (v == '_' || (v >= '0' && v <= '9'))) || (v >= 'A' && v <= 'Z')
+
+//@ func Constant
+//@   pure
+//@   ensures  def:: result == forall(0, len(name), func(k int) bool { return constChar(k, name[k]) })
+//@   loop 1 invariant 0 <= rangepos(1) && rangepos(1) <= len(name)
+//@   loop 1 invariant forall(0, rangepos(1), func(k int) bool { return constChar(k, name[k]) })
+//@   loop 1 decreases len(name) - rangepos(1)
+//@   property C19 C04
+
+//@ define scalar(x) = isType(x, Integer) || isType(x, Float) || isType(x, Boolean) || isType(x, Null) || isType(x, String) || isType(x, Error)
+
+//@ func Value
+//@   modifies *
+//@   nosafety
+//@   ensures  identity:: implies(!isType(o0, Reference) && !isType(o0, *Register), result == o0)
+//@   loop 1 invariant implies(!isType(o0, Reference) && !isType(o0, *Register), o == o0)
+//@   property C12 C07
+
+// Ghost lemma functions: compiled only under tag verif, never called by grol.  Their contracts are order laws
+// of the real Cmp/Equals; Cmp's body is unfolded (its container loops are unreachable for scalar operands).
+
+// lemmaI2FMonotone: int64 -> float64 conversion (round to nearest even) is monotone.
+func lemmaI2FMonotone(x, y int64) bool {
+	return x > y || float64(x) <= float64(y)
+}
+
+//@ func lemmaI2FMonotone
+//@   arith bv
+//@   pure
+//@   ensures  x > y || float64(x) <= float64(y)
+//@   property C12
+
+// useMono instantiates lemmaI2FMonotone for two objects when both are integers.
+func useMono(a, b Object) {
+	ai, ok1 := a.(Integer)
+	bi, ok2 := b.(Integer)
+	if ok1 && ok2 {
+		lemmaI2FMonotone(ai.Value, bi.Value)
+		lemmaI2FMonotone(bi.Value, ai.Value)
+	}
+}
+
+func lemmaCmp2(a, b Object) (ab, ba, aa int, eab, eba, eaa bool) {
+	return Cmp(a, b), Cmp(b, a), Cmp(a, a), Equals(a, b), Equals(b, a), Equals(a, a)
+}
+
+//@ func lemmaCmp2
+//@   arith bv
+//@   unfold object.Cmp
+//@   requires scalar(a) && scalar(b)
+//@   split isType(a, Integer) | isType(a, Float) | isType(a, Boolean) | isType(a, Null) | isType(a, String) | isType(a, Error)
+//@   split isType(b, Integer) | isType(b, Float) | isType(b, Boolean) | isType(b, Null) | isType(b, String) | isType(b, Error)
+//@   ensures  range:: -1 <= result0 && result0 <= 1
+//@   ensures  reflexive:: result2 == 0 && result5
+//@   ensures  antisym:: result0 == -result1
+//@   ensures  eqsym:: result3 == result4
+//@   ensures  eqcmp:: implies(result3, result0 == 0)
+//@   property C12
+
+func lemmaCmpTrans(a, b, c Object) (ab, bc, ac int, eab, ebc, eac bool) {
+	useMono(a, b)
+	useMono(b, c)
+	useMono(a, c)
+	return Cmp(a, b), Cmp(b, c), Cmp(a, c), Equals(a, b), Equals(b, c), Equals(a, c)
+}
+
+//@ func lemmaCmpTrans
+//@   arith bv
+//@   nosafety
+//@   unfold object.Cmp
+//@   requires scalar(a) && scalar(b) && scalar(c)
+//@   split isType(a, Integer) | isType(a, Float) | isType(a, Boolean) | isType(a, Null) | isType(a, String) | isType(a, Error)
+//@   split isType(b, Integer) | isType(b, Float) | isType(b, Boolean) | isType(b, Null) | isType(b, String) | isType(b, Error)
+//@   split isType(c, Integer) | isType(c, Float) | isType(c, Boolean) | isType(c, Null) | isType(c, String) | isType(c, Error)
+//@   ensures  transitive:: implies(result0 <= 0 && result1 <= 0, result2 <= 0)
+//@   ensures  eqtrans:: implies(result3 && result4, result5)
+//@   property C12
